@@ -63,6 +63,7 @@ Rx1OK(p) == \A k \in 1..Len(p.rx1) :
 
 OpFails(e) ==
   LET cs == OpChans(e) IN
+  IF "silent" \in DOMAIN e THEN Tag(e.code = OpCode(e), "C15.index") ELSE    \* a step followed by no query: result code only, the state is compared at the next queried step
   Tag(e.code = OpCode(e), "C15.index")
   \o Tag(ProjMatches(e.proj, cs, OpDl(e)), "C15.state")
   \o Tag(PartitionOK(e.proj), "C15.partition")
